@@ -382,3 +382,22 @@ Theorem C20_lock_order_example :
   let c := hexec [0; 1] (hinit nested2) [0; 1; 0; 1; 1; 0; 0; 1; 1; 1] in h_prog c 0 = [] /\ h_prog c 1 = [].
 Proof. exact nested_example. Qed.
 Print Assumptions C20_lock_order_example.
+
+(* ---------- non-vacuity of the first-round theorems: concrete finished runs ---------- *)
+Theorem C20_lazy_init_example :
+  let c := exec nat nat Datatypes.S site_dask (mkSh None (Some 41) 0) [0; 1; 0; 1; 0; 0; 1; 0; 0; 0; 0; 0; 0; 1; 1; 1; 1; 1; 1; 1; 1; 1; 1] in
+  done_val (c_th c 0) = Some 42 /\ done_val (c_th c 1) = Some 42 /\ ncomp (c_sh c) = 1 /\ c_lock c = None.
+Proof. exact lazy_init_example. Qed.
+Print Assumptions C20_lazy_init_example.
+Theorem C20_pool_example :
+  let p := fold_left pool_step [PGet 0; PGet 1; PPut 0; PGet 2; PPut 1; PPut 2] pool_init in
+  p_next p = 2 /\ p_held p = [] /\ List.length (p_free p) = 2 /\ p_err p = false.
+Proof. exact pool_example. Qed.
+Print Assumptions C20_pool_example.
+Theorem C20_sched_example :
+  let es := [Start 0 0; Finish 0; Start 1 2; Start 0 1; Finish 1; Finish 0; Start 1 3; Finish 1] in
+  wf nat gdia = true /\ all_done nat gdia (crun nat gdia es) = true /\
+  map (c_done (crun nat gdia es)) [0; 1; 2; 3] = [Some 3; Some 13; Some 23; Some 299] /\
+  map (seq_run nat gdia) [0; 1; 2; 3] = [Some 3; Some 13; Some 23; Some 299].
+Proof. exact sched_example. Qed.
+Print Assumptions C20_sched_example.
